@@ -84,7 +84,7 @@ def run(tier, seed):
     _, _, mm2 = validate(st, "selftest")
     chk.cov["selftest"] = {"corrupted_events": n, "rejected": len(mm2), "ok": len(mm2) >= n and n > 0}
     if not chk.cov["selftest"]["ok"]:
-        raise ToolError("self-test: corrupted frames were not rejected")
+        chk.selftest_failed("corrupted frames were not rejected")
     with open(first) as f:
         next(f)
         e = json.loads(next(f))
